@@ -2,11 +2,20 @@
 (* Plain grammar vectors (C10, C12): the transformation under test is run by the harness and its   *)
 (* input/output pair is validated by Xform.tla.  Filter selects which grammars are interesting.    *)
 EXTENDS GrammarEnum
-CONSTANT Filter      \* "all" | "wf" | "wfll" | "startprod"
+CONSTANT Filter      \* "all" | "wf" | "wfll" | "startprod" | "tie"
+
+\* C24: left factoring picks the largest group of alternatives with a common first symbol; a TIE is a
+\* non-terminal with two different first symbols that each start the same maximal number (>= 2) of
+\* alternatives - the situation in which the outcome depends on which group is taken first
+FirstGroups(A) == {x \in RhsSyms(G) : Cardinality({i \in ProdsOf(G, A) : Rhs(G, i) # <<>> /\ Rhs(G, i)[1] = x}) >= 2}
+GroupSize(A, x) == Cardinality({i \in ProdsOf(G, A) : Rhs(G, i) # <<>> /\ Rhs(G, i)[1] = x})
+HasTie == \E A \in G.nts : \E x, y \in FirstGroups(A) :
+             x # y /\ GroupSize(A, x) = GroupSize(A, y) /\ \A z \in FirstGroups(A) : GroupSize(A, z) <= GroupSize(A, x)
 
 Interesting == CASE Filter = "wf" -> WellFormed(G)
                  [] Filter = "wfll" -> WellFormedLL(G)
                  [] Filter = "startprod" -> ProdsOf(G, G.start) # {}
+                 [] Filter = "tie" -> WellFormedLL(G) /\ HasTie
                  [] OTHER -> TRUE
 Emit == (done /\ Interesting) => PrintT(<<"VEC", ToJson([g |-> GJson(G)])>>)
 =============================================================================
